@@ -1142,3 +1142,142 @@ Proof.
   - apply mk_el_rows. apply W. left. reflexivity.
   - apply IH. intros m' Hin. apply W. right. exact Hin.
 Qed.
+
+(* ------------------------------------------------------------------ matrix power *)
+(* the mathematical power: A^0 = I, A^1 = A, A^(n+1) = A^n . A *)
+Fixpoint mat_pow_spec (a : Mx) (n : nat) (i j : nat) : Z :=
+  match n with
+  | O => if Nat.eqb i j then 1 else 0
+  | S k => match k with
+           | O => el a i j
+           | S _ => sumZ (map (fun t => mat_pow_spec a k i t * el a t j) (seq 0 (rows_of a)))
+           end
+  end.
+
+Lemma sumZ_map_ext (f g : nat -> Z) l : (forall k, In k l -> f k = g k) -> sumZ (map f l) = sumZ (map g l).
+Proof. intros H. f_equal. apply map_ext_in. exact H. Qed.
+
+Lemma sumZ_mod_mul_l M (f g : nat -> Z) l :
+  sumZ (map (fun k => (f k mod M) * g k) l) mod M = sumZ (map (fun k => f k * g k) l) mod M.
+Proof.
+  induction l as [|k l IH]; cbn [map sumZ fold_right]; [reflexivity|].
+  fold (sumZ (map (fun k => (f k mod M) * g k) l)). fold (sumZ (map (fun k => f k * g k) l)).
+  rewrite Zplus_mod, IH, Zmult_mod_idemp_l, <- Zplus_mod. reflexivity.
+Qed.
+
+Lemma wfx_matmul r K c a b : wfx r K a -> wfx K c b -> wfx r c (mmatmul a b).
+Proof.
+  intros Wa Wb. unfold mmatmul. rewrite (wfx_rows r K a Wa), (wfx_cols K c b Wb).
+  split; [apply wfm_mk|]. split; [apply Wa|apply Wb].
+Qed.
+
+Lemma matmul_bits_nonneg a b : 0 <= maxb a -> 0 <= bits a + bits b -> 0 <= matmul_bits a b.
+Proof.
+  intros Hm Hs. unfold matmul_bits, capb. destruct (_ >? _) eqn:E; [exact Hm|].
+  apply Z.mul_nonneg_nonneg; lia.
+Qed.
+
+Lemma mrange_matmul r K c a b : wfx r K a -> wfx K c b -> 0 <= maxb a -> 0 <= bits a + bits b ->
+  mrange (mmatmul a b).
+Proof.
+  intros Wa Wb Hm Hs i j.
+  assert (Hrb : 0 <= bits (mmatmul a b)) by (apply matmul_bits_nonneg; assumption).
+  destruct (lt_dec i r) as [Hi|Hi]; [destruct (lt_dec j c) as [Hj|Hj]|].
+  - destruct (matmul_mod r K c a b i j Wa Wb Hm Hs Hi Hj) as [_ E]. rewrite E. apply mod_range. exact Hrb.
+  - unfold el, mmatmul. cbn [dat]. rewrite (wfx_rows r K a Wa), (wfx_cols K c b Wb).
+    rewrite get_mk_out by lia. split; [lia|apply pow2_pos; exact Hrb].
+  - unfold el, mmatmul. cbn [dat]. rewrite (wfx_rows r K a Wa), (wfx_cols K c b Wb).
+    rewrite get_mk_out by lia. split; [lia|apply pow2_pos; exact Hrb].
+Qed.
+
+(* acc holds A^n (n >= 1): exactly while max_bits has not been reached, mod 2^max_bits afterwards *)
+Definition pow_inv (r : nat) (a acc : Mx) (n : nat) : Prop :=
+  wfx r r acc /\ maxb acc = maxb a /\ mrange acc /\ 0 < bits acc <= maxb a /\
+  ((forall i j, (i < r)%nat -> (j < r)%nat -> el acc i j = mat_pow_spec a n i j) \/
+   (bits acc = maxb a /\
+    forall i j, (i < r)%nat -> (j < r)%nat -> el acc i j = mat_pow_spec a n i j mod 2 ^ maxb a)).
+
+Lemma pow_step r a acc c n : wfx r r a -> 0 < bits a <= maxb a ->
+  wfx r r c -> bits c = bits a -> mrange c -> (forall i j, el c i j = el a i j) ->
+  pow_inv r a acc (S n) -> pow_inv r a (mmatmul acc c) (S (S n)).
+Proof.
+  intros Wa Hb Wc Bc Rc Ec [Wacc [Macc [Racc [Bacc Hv]]]].
+  assert (Hr : (0 < r)%nat) by apply Wa.
+  assert (Hs : 0 <= bits acc + bits c) by lia.
+  assert (Wn : wfx r r (mmatmul acc c)) by (apply (wfx_matmul r r r); assumption).
+  assert (Rn : mrange (mmatmul acc c)) by (apply (mrange_matmul r r r); try assumption; lia).
+  assert (Hspec : forall i j, (i < r)%nat -> (j < r)%nat ->
+            mat_pow_spec a (S (S n)) i j = sumZ (map (fun t => mat_pow_spec a (S n) i t * el a t j) (seq 0 r))).
+  { intros i j _ _. cbn [mat_pow_spec]. rewrite (wfx_rows r r a Wa). reflexivity. }
+  assert (Hbits : bits (mmatmul acc c) = capb (Z.of_nat r * Z.of_nat r * (bits acc + bits c)) (maxb acc)).
+  { apply (matmul_mod r r r acc c 0 0); try assumption; lia. }
+  assert (Hpos : 0 < Z.of_nat r * Z.of_nat r * (bits acc + bits c)).
+  { apply Z.mul_pos_pos; [apply Z.mul_pos_pos|]; lia. }
+  assert (Bn : 0 < bits (mmatmul acc c) <= maxb a).
+  { rewrite Hbits, Macc. unfold capb. destruct (_ >? _) eqn:E; lia. }
+  split; [exact Wn|]. split; [exact Macc|]. split; [exact Rn|]. split; [exact Bn|].
+  destruct Hv as [Hex|[Hcap Hmod]].
+  - (* values exact so far *)
+    assert (Hdot : forall i j, (i < r)%nat -> (j < r)%nat ->
+              dot_spec acc c r i j = mat_pow_spec a (S (S n)) i j).
+    { intros i j Hi Hj. rewrite Hspec by assumption. unfold dot_spec. apply sumZ_map_ext.
+      intros k Hk. apply in_seq in Hk. rewrite Hex by lia. rewrite Ec. reflexivity. }
+    destruct (Z_le_gt_dec (Z.of_nat r * Z.of_nat r * (bits acc + bits c)) (maxb acc)) as [Hfit|Hover].
+    + left. intros i j Hi Hj.
+      destruct (matmul_width_exact r r r acc c i j Wacc Wc Racc Rc ltac:(lia) Hfit Hi Hj) as [_ E].
+      rewrite E. apply Hdot; assumption.
+    + right. split.
+      * rewrite Hbits, Macc. unfold capb. rewrite Macc in Hover.
+        destruct (_ >? _) eqn:E; [reflexivity|lia].
+      * intros i j Hi Hj.
+        destruct (matmul_mod r r r acc c i j Wacc Wc ltac:(lia) Hs Hi Hj) as [Eb E].
+        rewrite E, Hdot by assumption. f_equal. f_equal.
+        rewrite Eb, Macc. unfold capb. rewrite Macc in Hover. destruct (_ >? _) eqn:E2; [reflexivity|lia].
+  - (* already capped: everything is mod 2^max_bits from here on *)
+    right.
+    assert (Hb2 : bits (mmatmul acc c) = maxb a).
+    { rewrite Hbits, Macc, Hcap. unfold capb.
+      destruct (_ >? _) eqn:E; [reflexivity|]. exfalso.
+      assert (H1 : 1 <= Z.of_nat r * Z.of_nat r) by nia.
+      pose proof (Z.mul_le_mono_nonneg_r 1 (Z.of_nat r * Z.of_nat r) (maxb a + bits c) ltac:(lia) H1). lia. }
+    split; [exact Hb2|]. intros i j Hi Hj.
+    destruct (matmul_mod r r r acc c i j Wacc Wc ltac:(lia) Hs Hi Hj) as [_ E].
+    rewrite E, Hb2, Hspec by assumption. unfold dot_spec.
+    rewrite <- (sumZ_mod_mul_l (2 ^ maxb a) (fun t => mat_pow_spec a (S n) i t) (fun t => el a t j)).
+    f_equal. apply sumZ_map_ext. intros k Hk. apply in_seq in Hk. rewrite Hmod by lia. rewrite Ec. reflexivity.
+Qed.
+
+Lemma pow_from_inv r a c : wfx r r a -> 0 < bits a <= maxb a ->
+  wfx r r c -> bits c = bits a -> mrange c -> (forall i j, el c i j = el a i j) ->
+  forall k acc n, pow_inv r a acc (S n) -> pow_inv r a (mpow_from acc c k) (S n + k).
+Proof.
+  intros Wa Hb Wc Bc Rc Ec. induction k as [|k IH]; intros acc n Hinv; cbn [mpow_from].
+  - rewrite Nat.add_0_r. exact Hinv.
+  - replace (S n + S k)%nat with (S (S n) + k)%nat by lia. apply IH.
+    apply (pow_step r a acc c n); assumption.
+Qed.
+
+(* a ** n : entry (i,j) is the mathematical power modulo 2^bits of the result *)
+Theorem pow_correct r a n i j : wfx r r a -> mrange a -> 0 < bits a <= maxb a ->
+  (i < r)%nat -> (j < r)%nat ->
+  el (mpow a n) i j = mat_pow_spec a n i j mod 2 ^ bits (mpow a n).
+Proof.
+  intros Wa Ra Hb Hi Hj.
+  destruct (copy_correct r r a Wa ltac:(lia) Ra) as [Cd Cb].
+  set (c := mcopy a) in *.
+  assert (Mc : maxb c = maxb a) by reflexivity.
+  assert (Wc : wfx r r c).
+  { destruct Wa as [Wm [Hr Hc]]. split; [rewrite Cd; exact Wm|split; assumption]. }
+  assert (Ec : forall i j, el c i j = el a i j) by (intros; unfold el; rewrite Cd; reflexivity).
+  assert (Rc : mrange c) by (intros i' j'; rewrite Ec, Cb; apply Ra).
+  unfold mpow. fold c. destruct n as [|k].
+  - unfold midentity, el at 1. cbn [dat bits]. rewrite (wfx_rows r r c Wc), (wfx_cols r r c Wc).
+    rewrite get_mk by assumption. reflexivity.
+  - assert (Inv0 : pow_inv r a c 1).
+    { split; [exact Wc|]. split; [exact Mc|]. split; [exact Rc|]. split; [lia|].
+      left. intros i' j' _ _. cbn [mat_pow_spec]. apply Ec. }
+    pose proof (pow_from_inv r a c Wa Hb Wc Cb Rc Ec k c 0%nat Inv0) as [_ [_ [Rn [_ Hv]]]].
+    cbn [Nat.add] in Hv. destruct Hv as [Hex|[Hcap Hmod]].
+    + rewrite <- Hex by assumption. symmetry. apply Z.mod_small. apply Rn.
+    + rewrite Hcap. apply Hmod; assumption.
+Qed.
